@@ -1,22 +1,56 @@
 #!/usr/bin/env python3
-"""Regression over all kept seeded changes: every /verif/seeded/<name>/patch.diff is applied to a scratch worktree and the
-checks recorded in meta.json (verification.detected_by, else the property's own check) must report a violation (exit 1).
-usage: regress_seeded.py [name-prefix ...]   prints one line per change; exit 1 if any is no longer detected."""
-import glob, json, os, subprocess, sys
-want = sys.argv[1:]
-bad = []
-for d in sorted(glob.glob("/verif/seeded/C*")):
+"""Regression over all kept seeded changes: every /verif/seeded/<name>/patch.diff is applied to a scratch worktree and
+the property's own check plus the checks recorded in meta.json (verification.detected_by) are run against it; at least
+one of them must report a violation (exit 1).  The outcome is written back into meta.json ("regression").
+usage: regress_seeded.py [--jobs N] [name-prefix ...]   prints one line per change; exit 1 if any is no longer detected."""
+import concurrent.futures as cf
+import glob
+import json
+import os
+import subprocess
+import sys
+
+args = sys.argv[1:]
+jobs = 1
+if "--jobs" in args:
+    i = args.index("--jobs")
+    jobs = int(args[i + 1])
+    del args[i : i + 2]
+want = args
+
+
+def one(d):
     name = os.path.basename(d)
-    if want and not any(name.startswith(w) for w in want):
-        continue
-    meta = json.load(open(os.path.join(d, "meta.json")))
-    checks = meta.get("verification", {}).get("detected_by") or [meta["property"]]
+    mp = os.path.join(d, "meta.json")
+    meta = json.load(open(mp))
     if meta.get("not_detected"):
-        print(f"{name}: recorded as NOT detected ({meta['not_detected']})"); continue
-    r = subprocess.run(["python3", "/verif/tools/mutest.py", os.path.join(d, "patch.diff")] + checks[:1], stdout=subprocess.PIPE, stderr=subprocess.STDOUT, text=True)
+        return name, None, f"recorded as NOT detected ({meta['not_detected'][:80]})"
+    checks = [meta["property"]] + [c for c in (meta.get("verification", {}).get("detected_by") or []) if c != meta["property"]]
+    r = subprocess.run(["python3", "/verif/tools/mutest.py", os.path.join(d, "patch.diff")] + checks, stdout=subprocess.PIPE, stderr=subprocess.STDOUT, text=True)
     line = [l for l in r.stdout.splitlines() if l.startswith("RESULT")]
-    ok = bool(line) and "': 1" in line[0]
-    print(f"{name}: {line[0] if line else r.stdout[-200:]} {'OK' if ok else 'NOT DETECTED'}", flush=True)
-    if not ok: bad.append(name)
+    try:
+        rc = eval(line[0][len("RESULT ") :]) if line else {}
+    except Exception:  # noqa
+        rc = {}
+    first = {}
+    cur = None
+    for l in r.stdout.splitlines():
+        if l.startswith("--- "):
+            cur = l.split()[1]
+        if "what=" in l and cur and cur not in first:
+            first[cur] = l.strip()[5:300]
+    det = [c for c, v in rc.items() if v == 1]
+    meta["regression"] = {"base_commit": subprocess.check_output(["git", "-C", "/repo", "rev-parse", "--short", "HEAD"], text=True).strip(), "exit_codes": rc, "detected_by": det, "first_violation": first}
+    json.dump(meta, open(mp, "w"), indent=1)
+    return name, bool(det), f"{rc}"
+
+
+dirs = [d for d in sorted(glob.glob("/verif/seeded/C*")) if not want or any(os.path.basename(d).startswith(w) for w in want)]
+bad = []
+with cf.ThreadPoolExecutor(jobs) as ex:
+    for name, ok, msg in ex.map(one, dirs):
+        print(f"{name}: {msg} {'' if ok is None else 'OK' if ok else 'NOT DETECTED'}", flush=True)
+        if ok is False:
+            bad.append(name)
 print("not detected:", bad)
 sys.exit(1 if bad else 0)
